@@ -256,6 +256,71 @@ func (c *Ctx) Finish(verifDir string, seed int64, start time.Time, explanation s
 		"wall_s":      time.Since(start).Seconds(),
 		"violations":  viol,
 	}
+	// sub-run summary
+	if subRun.jsonOut != "" {
+		var vs []*Ob
+		for _, o := range c.Obs {
+			if o.st == StViolation {
+				vs = append(vs, o)
+			}
+		}
+		sb, _ := json.Marshal(map[string]any{"property": c.Prop, "obligations": len(c.Obs), "discharged": okc, "violations": vs, "config": c.Extra["config"], "wall_s": time.Since(start).Seconds()})
+		_ = os.WriteFile(subRun.jsonOut, sb, 0o644)
+	}
+	if subRun.noEvidence {
+		for _, o := range c.Obs {
+			if o.st == StViolation {
+				fmt.Printf("%s: %s: %s: %s\n", o.Pos, o.Rule, clipS(o.Key, 100), clipS(o.How, 200))
+			}
+		}
+		if viol > 0 {
+			return 1
+		}
+		return 0
+	}
+	// merge sub-runs of the thorough tier
+	if subRun.merge != "" {
+		files, _ := filepath.Glob(filepath.Join(subRun.merge, "*.json"))
+		sort.Strings(files)
+		var configs, live []map[string]any
+		for _, f := range files {
+			b, err := os.ReadFile(f)
+			if err != nil {
+				continue
+			}
+			var m map[string]any
+			if json.Unmarshal(b, &m) != nil {
+				continue
+			}
+			name := strings.TrimSuffix(filepath.Base(f), ".json")
+			m["name"] = name
+			nv := 0
+			if vsl, ok := m["violations"].([]any); ok {
+				nv = len(vsl)
+			}
+			if strings.HasPrefix(name, "cfg-") {
+				configs = append(configs, map[string]any{"config": name[4:], "obligations": m["obligations"], "violations": nv})
+				if nv > 0 {
+					viol += nv
+					for _, v := range m["violations"].([]any) {
+						if vm, ok := v.(map[string]any); ok {
+							fmt.Printf("[%s] %v: %v: %v: %v\n", name[4:], vm["pos"], vm["rule"], vm["key"], vm["how"])
+						}
+					}
+				}
+			} else if strings.HasPrefix(name, "live-") {
+				caught := nv > 0
+				live = append(live, map[string]any{"seeded_change": name[5:], "reported": caught, "violations": nv})
+				if !caught {
+					fmt.Printf("LIVENESS: seeded change %s, which is known to break %s, is NOT reported by this check (the checker lost its teeth)\n", name[5:], c.Prop)
+					viol++
+				}
+			}
+		}
+		cov["other_build_configurations"] = configs
+		cov["liveness_seeded_changes"] = live
+		ev["violations"] = viol
+	}
 	evDir := filepath.Join(verifDir, "evidence")
 	_ = os.MkdirAll(evDir, 0o755)
 	b, _ := json.MarshalIndent(ev, "", " ")
@@ -303,4 +368,11 @@ func posLess(a, b string) bool {
 		}
 	}
 	return false
+}
+
+func clipS(s string, n int) string {
+	if len(s) > n {
+		return s[:n] + "…"
+	}
+	return s
 }
